@@ -212,7 +212,9 @@ class Parser:
         if isinstance(v, (str, int)):
             s = str(v)
             if s == "@any":
-                return [ANY]
+                # the wildcard admits '+' and '*', so what it covers inside the brackets is not tied to one
+                # component; no statement defines component boundaries for a wildcard: not judged by the model
+                raise Unsupported("@any inside $deref")
             if s.startswith(("&", "$", "@")):
                 raise Unsupported("deref value " + s)
             return [s]
